@@ -1100,16 +1100,14 @@ where
                 }
 
                 Err(TrySendError::Full(unused_response)) => {
-                    if matches!(self.status, InvokerStatus::InTransaction) {
-                        // Wait until there is space in the message queue.
-                        tokio::task::yield_now().await;
-                        response = unused_response;
-                    } else {
-                        error!(
-                            "Unable to queue message for sending: queue is full."
-                        );
-                        break;
-                    }
+                    // Wait until there is space in the message queue. The
+                    // response must not be dropped: the client is waiting
+                    // for it (RFC 7766 section 6.2.1.1 allows a client to
+                    // pipeline more queries than the queue can hold), and
+                    // the connection handler drains the queue whenever it
+                    // can write to the stream.
+                    tokio::task::yield_now().await;
+                    response = unused_response;
                 }
             }
         }
